@@ -231,6 +231,31 @@ def run(tier, seed):
             samples.append({"class": cls, "outcome": detail, "first_error": shp, "bytes": size})
     pinned, notes = R.pinned_internal_errors("C06", work)
     viol.extend(pinned)
+    # sanitizer sample: the same CLI under valgrind memcheck on inputs that compile normally (accepted or rejected);
+    # an addressability error inside the compiler is a violation even when the process survives it
+    n_mc = 6 if tier == "quick" else 240
+    rng = C.Rng(seed, 66)
+    cand = [j for j, r in zip(jobs, results) if r[2] == "ok" and len(j[1]) < 6000]
+    mc_jobs = [(k, j[1], j[2], os.path.join(work, f"mc{k}")) for k, j in enumerate(rng.sample(cand, min(n_mc, len(cand))))]
+
+    def mc_one(job):
+        k, text, cls, d = job
+        c, reports = R.memcheck_compile(d, {"main.capy": text})
+        shutil.rmtree(d, ignore_errors=True)
+        return k, text, cls, c.timed_out or c.cpu_exceeded, reports
+
+    mc_done = 0
+    for k, text, cls, lost, reports in C.pmap(mc_one, mc_jobs):
+        if lost:
+            inconc.append(f"memcheck input {k} ({cls}): watchdog")
+            continue
+        mc_done += 1
+        for kind, sig in reports[:1]:
+            viol.append({"key": "memcheck", "sig": "memcheck|" + sig, "what": f"valgrind memcheck: {kind} while compiling a {cls} input ({sig})",
+                         "witness": {"files": {"main.capy": text}, "class": cls}})
+    counters["memcheck_compilations"] = mc_done
+    evals += mc_done
+    notes.append(f"{mc_done} of the inputs were also compiled under valgrind memcheck (addressability errors only)")
     counters["distinct_internal_error_signatures"] = len(cnt)
     rep = {"evaluations": evals, "distinct_nontrivial": len(sigs), "violations": viol, "samples": samples, "counters": counters, "notes": notes, "exhaustive": False}
     return C.finish("C06", tier, seed, t0, "exploration", rep, ASSUME, RULE, min_evals=500, inconclusive=inconc)
